@@ -224,6 +224,35 @@ pub fn run(tier: Tier) -> i32 {
             rep.eval(1);
         });
 
+        // ---- (5b) inheritance loops x a reference to a null / absent target ------------------------------------
+        {
+            let locs = ["en", "fr", "de", "it"];
+            let maps = vmodel::gen::inherits_maps(&locs);
+            let pats = vmodel::enumerate::tuples(3, 3);
+            par_for_chunked(maps.len() * pats.len(), 8, |w, i| {
+                let m = &maps[i / pats.len()];
+                let pat = &pats[i % pats.len()];
+                let mut cfg = Config::simple("en", &locs);
+                cfg.inherits = m.clone();
+                let mut p = Project::new(cfg);
+                for (li, loc) in locs.iter().enumerate() {
+                    let mut e = vec![("a".to_string(), s(vec![fk("b")])), ("c".to_string(), s(vec![fk_args("b", vec![("x", FkArg::Str(vec![fk("a")]))])]))];
+                    match if li == 0 { 0 } else { pat[li - 1] } {
+                        0 => e.push(("b".to_string(), s(vec![text("[b]"), var("x")]))),
+                        1 => e.push(("b".to_string(), Val::Null)),
+                        _ => {}
+                    }
+                    p.set_file(None, loc, e);
+                }
+                *current[w].lock().unwrap() = p.describe();
+                watch.begin(w);
+                let o = run_project(&p, &scratch.worker(w), default_opts());
+                watch.end(w);
+                judge(&rep, "inherits-loop-fk", &format!("inherits {m:?} presence {pat:?}"), &o, &classes);
+                rep.eval(1);
+            });
+        }
+
         // ---- (6) whole-file contents ----------------------------------------------------------------------------------
         let files: Vec<(&str, Vec<u8>)> = vec![
             ("empty", vec![]),
